@@ -205,3 +205,19 @@ class Report:
                  self.cov['traces_validated_against_impl'], len(bysig), len(seen_known),
                  time.time() - self.t0))
         return 1 if bysig else 0
+
+
+CANARY_BASE = 1000000000
+
+
+def split_canaries(res, canary_ids):
+    """Canary events are deliberately corrupted recordings appended to a batch: the trace spec
+    MUST reject each of them (otherwise the validator is blind -> machinery failure).
+    Returns the list of genuine (id, clause) verdicts."""
+    from harness.tlc import MachineryError
+    flagged = {i for i, _ in res['bad']}
+    missing = [c for c in canary_ids if c not in flagged]
+    if missing:
+        raise MachineryError('corrupted canary events were ACCEPTED by the trace spec: %r' % missing)
+    cs = set(canary_ids)
+    return [(i, c) for i, c in res['bad'] if i not in cs]
